@@ -16,7 +16,19 @@ RNG_KINDS = {"randint", "uniform", "choice", "normal"}
 
 def reward_fn_of(task):
     if task["mode"] == "full":
-        return reward_from_alphabet(tuple(task["R"]))
+        f = reward_from_alphabet(tuple(task["R"]))
+        fa = task.get("free_after")
+        if fa is None:
+            return f
+        base = BASES[task.get("free_base", "twopeak")]
+
+        def g(ctx):
+            # rounds after `free_after` are a deterministic continuation (no choice point)
+            return f(ctx) if ctx.t <= fa else float(base(ctx))
+
+        g.alphabet = f.alphabet
+        g.base = None
+        return g
     return reward_dev(BASES[task["base"]], tuple(task["R"]), task["base"])
 
 
